@@ -34,6 +34,10 @@ type descriptor struct {
 	// (unknown variable / non-boolean / foreign syntax): it is not true, and the
 	// conditions listed after it are still evaluated
 	Raw int `json:"raw,omitempty"`
+	// FlowLang: per branch an explicit language attribute ("" = the definitions
+	// default, "expr", "xpath"): the activating token probes conditions written
+	// in different expression languages at one gateway
+	FlowLang []string `json:"flowLang,omitempty"`
 }
 
 func task() *gen.Block { return &gen.Block{K: "task", Def: -1} }
@@ -43,6 +47,9 @@ func buildAST(d descriptor, vars map[string]any) *gen.Block {
 	top.Kids = append(top.Kids, task())
 	for rep := 0; rep < d.Repeat; rep++ {
 		inc := &gen.Block{K: "inc", Def: d.Def}
+		if len(d.FlowLang) == d.NB {
+			inc.Langs = append([]string(nil), d.FlowLang...)
+		}
 		for i := 0; i < d.NB; i++ {
 			v := fmt.Sprintf("c%d_%d", rep, i)
 			vars[v] = d.Mask&(1<<i) != 0
@@ -274,6 +281,11 @@ func TestC05Random(t *testing.T) {
 			d.EarlyEnd = append(d.EarlyEnd, rapid.Bool().Draw(rt, "early"))
 		}
 		d.Order = rapid.Permutation(seq(nb)).Draw(rt, "order")
+		if nb >= 2 && rapid.IntRange(0, 2).Draw(rt, "mixedLanguages") == 0 {
+			for i := 0; i < nb; i++ {
+				d.FlowLang = append(d.FlowLang, rapid.SampledFrom([]string{"", "expr", "xpath"}).Draw(rt, "flowLang"))
+			}
+		}
 		if rapid.IntRange(0, 3).Draw(rt, "unevaluable") == 0 {
 			d.Raw = rapid.IntRange(1, 1<<nb-1).Draw(rt, "raw")
 			if d.Def >= 0 {
